@@ -121,6 +121,19 @@ func HTransparentRead(kind, seed, m int) {
 	}
 }
 
+// primitivesOf lists the primitives a successful composite call is built on.
+func primitivesOf(name string) []avfs.FnVFS {
+	switch name {
+	case "Create":
+		return []avfs.FnVFS{avfs.FnOpenFile}
+	case "WriteFile":
+		return []avfs.FnVFS{avfs.FnOpenFile, avfs.FnFileWrite, avfs.FnFileClose}
+	case "MkdirTemp":
+		return []avfs.FnVFS{avfs.FnMkdir}
+	}
+	return nil
+}
+
 func composite(name string) bool {
 	return name == "Create" || name == "WriteFile" || name == "MkdirTemp" || name == "CreateTemp"
 }
@@ -139,11 +152,13 @@ func HInject(kind, seed, m int) {
 	consulted := 0
 	firedFn := ""
 	callDone := false
+	var fns []avfs.FnVFS
 	_ = ff.SetFailFunc(func(_ avfs.VFSBase, fn avfs.FnVFS, _ *failfs.FailParam) error {
 		if callDone {
 			return nil
 		}
 		consulted++
+		fns = append(fns, fn)
 		if fired == 0 && sym.Bool("fail") {
 			fired++
 			firedFn = fn.String()
@@ -175,6 +190,18 @@ func HInject(kind, seed, m int) {
 	sym.Observe("err", hx.Code(err))
 	sym.Observe("consulted", consulted)
 	sym.Assert(consulted > 0, "C12|"+label+"|failure-function-never-consulted")
+	if fired == 0 && err == nil {
+		// a composite that succeeded must have gone through the primitives it is built on
+		for _, need := range primitivesOf(name) {
+			found := false
+			for _, g := range fns {
+				if g == need {
+					found = true
+				}
+			}
+			sym.Assert(found, "C12|"+label+"|inject|primitive-"+need.String()+"-never-consulted")
+		}
+	}
 	if fired > 0 {
 		sym.Reach("fault-fired")
 		if composite(name) {
